@@ -44,6 +44,9 @@ CHECKS = {
  "C15": ("model_checking", "E1 + codec oracle", "exhaustive enumeration of small payloads, of every expressible compression setting and of window/block-boundary payload sizes, each round-tripped by the real codec and cross-checked with reference codecs",
          "All byte strings up to length 6 over a 4-letter alphabet, every setting the settings types can express (all 256 u8 levels, 6 deflate levels) and payload sizes around every codec window boundary with compressible and incompressible content round-trip; deflate/bzip2/xz/zstd streams are accepted by reference decompressors and vice versa; snappy blocks are independently decodable and carry the big-endian CRC-32, with every single-bit checksum corruption rejected.",
          "5 C15", "python zlib/bz2/lzma trusted; zstandard interop via CLI; payload alphabet/sizes as listed"),
+ "C05": ("model_checking", "E1 in isolated workers", "exhaustive enumeration of byte strings / mutations / hostile headers / bombs over every reading entry point and three allocation limits, executed on the real library in worker processes under a counting allocator with a parent-side progress watchdog",
+         "Every input of the bounded universe is fed to every reading entry point under each allocation limit in its own process: no panic, no abort, no stall on a single input, and no single allocation request above three times the limit (64 KiB floor; bzip2 working memory excepted).",
+         "5 C05", "allocations made by C libraries (xz, zstd) are not observed; recursion depth limited to 200; reader iteration cut at 10 000 items"),
 }
 def main():
     checks = []
